@@ -50,6 +50,16 @@ def closure_step(a, cell, argname='x'):
             s = sym(names.get(i, 'cap%d' % i))
             havoced[i] = (s, c)
             caps[i] = s
+    # a cursor may also be kept as the not-yet-passed part of the segments (a slice shrinking from the left)
+    try:
+        for i, c in enumerate(caps):
+            if isinstance(c, SliceRef) and isinstance(after0.captures[i], SliceRef) and after0.captures[i].start != c.start \
+                    and after0.captures[i].end == c.end and i not in havoced:
+                s = sym(names.get(i, 'cap%d' % i) + '.start')
+                havoced[i] = (s, c.start)
+                caps[i] = SliceRef(c.root, c.path, s, c.end, c.mut)
+    except NameError:
+        pass
     it.write(st, cell.root, cell.path, Closure(clos.path, tuple(caps)))
     ctx = CallCtx(it, None, st, None, [], None, None)
     x = sym(argname)
@@ -92,21 +102,27 @@ def check(cx):
         rep.ob('init', inst, init == ('ic', 0), 'cursor starts at %s' % term_str(init), fn=inst, file=file, line=line,
                msg='cursor does not start at segment 0')
         prev2 = after.captures[ci]
+        slice_cursor = isinstance(prev2, SliceRef)
+        if slice_cursor:
+            prev2 = prev2.start
         S = ('seq', 'self.segments')
         lenS = ('len', S)
         x = sym('x')
         rep.sample({'fn': inst, "prev'": term_str(prev2)[:400], 'out': term_str(out)[:300]})
         probs = []
         pred_ok = False
-        if not (isinstance(prev2, tuple) and prev2[0] == 'sel' and prev2[1][0] == 'found'):
-            probs.append("cursor update is not Select(found(search), …): " + term_str(prev2)[:200])
+        from ..terms import simp, subterms, mk_not
+        from .c02 import index_of, reduce_index
+        founds = [e for e in a.it.events if e['kind'] == 'search' and isinstance(prev2, tuple) and e.get('found') in set(subterms(prev2))]
+        if len(founds) != 1:
+            probs.append("cursor update does not depend on exactly one search: " + term_str(prev2)[:200])
         else:
-            found = prev2[1]
+            ev = founds[0]
+            found = ev['found']
             _, sterm, ivar, P = found
-            evs = [e for e in a.it.events if e['kind'] == 'search' and e.get('found') == found]
-            dom = search_domain(a.it, evs[-1]['base']) if evs else None
-            self_root = a.args[0].root
-            okd = dom is not None and not evs[-1]['rev'] and dom[2] == prev and dom[3] == lenS
+            dom = search_domain(a.it, ev['base'])
+            # all segments from the cursor on, or all but the last one (the last one is the fallback anyway)
+            okd = dom is not None and not ev['rev'] and dom[2] == prev and (dom[3] == lenS or dom[3] == ('i-', lenS, ('ic', 1)))
             if okd:
                 try:
                     okd = isinstance(a.it.read(st2, dom[0], dom[1]), SeqSym) and a.it.read(st2, dom[0], dom[1]).name == 'self.segments'
@@ -116,19 +132,30 @@ def check(cx):
                 probs.append('search domain is %s, expected segments[prev..] scanned forward' % term_str(sterm)[:160])
             idx = ('firstidx', sterm, ivar, P)
             nf = NF()
-            if not nf(prev2[2]).equals(nf(idx) + nf(prev)):
-                probs.append('on a match the cursor becomes %s, expected (index in the sub-slice) + prev (REBASE)' % term_str(prev2[2])[:160])
-            if not nf(prev2[3]).equals(nf(lenS) - nf(('ic', 1))):
-                probs.append('without a match the cursor becomes %s, expected len − 1' % term_str(prev2[3])[:120])
+            c_hit = simp(prev2, {found: True})
+            c_miss = simp(prev2, {found: False})
+            if not (isinstance(c_hit, tuple) and nf(c_hit).equals(nf(idx) + nf(prev))):
+                probs.append('on a match the cursor becomes %s, expected (index in the sub-slice) + prev (REBASE)' % term_str(c_hit)[:160])
+            if not (isinstance(c_miss, tuple) and nf(c_miss).equals(nf(lenS) - nf(('ic', 1)))):
+                probs.append('without a match the cursor becomes %s, expected len − 1' % term_str(c_miss)[:120])
             pc = pred_class(P, ('elem', S, a.it.iadd(prev, ivar), 'end'), x)
             pred_ok = pc == 'gt'
             rep.ob('pred', inst, pred_ok, 'predicate: ' + term_str(P)[:160], fn=inst, file=file, line=line,
                    msg='segment is accepted by `%s`, expected x < end (strict): %s' % (term_str(P)[:160], pc))
+            # the piece that is evaluated: segments[prev′] on either outcome
+            IDX = index_of(out, S, x)
+            nonempty = ('icmp', 'ne', lenS, ('ic', 0))
+            ok_pass = False
+            if IDX is not None:
+                domlen = ('icmp', 'lt', a.it.iadd(prev, idx), dom[3]) if dom is not None else nonempty
+                i_hit = reduce_index(simp(IDX, {found: True}), frozenset({found, nonempty, domlen}))
+                i_miss = reduce_index(simp(IDX, {found: False}), frozenset({mk_not(found), nonempty}))
+                ok_pass = isinstance(i_hit, tuple) and i_hit[0] != 'sel' and nf(i_hit).equals(nf(idx) + nf(prev)) and \
+                    isinstance(i_miss, tuple) and i_miss[0] != 'sel' and nf(i_miss).equals(nf(lenS) - nf(('ic', 1)))
+            rep.ob('pass', inst, ok_pass, 'output: ' + describe_eval(out)[:200], fn=inst, file=file, line=line,
+                   msg='the yielded value is %s, expected the unmodified T::evaluate(segments[prev′].poly, x)' % describe_eval(out)[:300])
         rep.ob('step', inst, not probs, '; '.join(probs) or "prev′ = Select(found, firstidx + prev, len−1)", fn=inst, file=file, line=line,
                msg='cursor transfer differs from the reference step: ' + '; '.join(probs))
-        ok_pass = eval_on_piece(out, S, prev2, x)
-        rep.ob('pass', inst, ok_pass, 'output: ' + describe_eval(out)[:200], fn=inst, file=file, line=line,
-               msg='the yielded value is %s, expected the unmodified T::evaluate(segments[prev′].poly, x)' % describe_eval(out)[:300])
         # the cursor is only ever assigned prev′ (captured by value: no other writer exists)
         others = [i for i in range(len(after.captures)) if i != ci and after.captures[i] != a.it.read(a.state, cell.root, cell.path).captures[i]]
         rep.ob('state', inst, not others, 'closure writes only its cursor', fn=inst, file=file, line=line,
